@@ -34,6 +34,15 @@ def evaluate(mod, cases, want_model=True):
     modname = mod.__name__
     impl = lib.run_impl_cases(modname, cases, per_case_s=getattr(mod, 'CASE_TIMEOUT', 5.0),
                               workers=getattr(mod, 'WORKERS', None))
+    # a watchdog timeout is examined once more, alone and with four times the budget, before anything is concluded
+    # from it: on a saturated machine (other checks, test suites) millisecond cases have been seen to exceed the
+    # per-case wall-clock limit; a case that really hangs times out again and is judged as before
+    late = [k for k, io in enumerate(impl) if isinstance(io, dict) and io.get('timeout') and not _skipped(io)]
+    if late and len(late) <= 8:
+        again = lib.run_impl_cases(modname, [cases[k] for k in late],
+                                   per_case_s=4 * getattr(mod, 'CASE_TIMEOUT', 5.0), workers=1)
+        for k, io in zip(late, again):
+            impl[k] = io
     model = [None] * len(cases)
     model_error = None
     if want_model and getattr(mod, 'DRIVER', None):
